@@ -61,6 +61,8 @@ pub struct UniCtx {
     pub chans: Vec<Arc<crate::rt::Chan>>,
     /// legacy host: run programs through the capability API instead of returning commands
     pub legacy: bool,
+    /// mixed core: the programs whose bit is set run through the capability API (if expressible there)
+    pub legacy_mask: u8,
     in_update: AtomicBool,
     pub reentered: AtomicBool,
 }
@@ -80,6 +82,9 @@ impl Drop for UniGuard {
 
 impl UniCtx {
     pub fn register(u: &Universe, sink: Arc<Sink>, legacy: bool) -> UniGuard {
+        Self::register_mixed(u, sink, legacy, 0)
+    }
+    pub fn register_mixed(u: &Universe, sink: Arc<Sink>, legacy: bool, legacy_mask: u8) -> UniGuard {
         let ctx = Arc::new(UniCtx {
             // sparse ids: a corrupted id (C12) must not name another live universe
             id: vkit::splitmix(NEXT_UNI.fetch_add(1, Ordering::Relaxed)) | 1,
@@ -90,6 +95,7 @@ impl UniCtx {
             exports: Mutex::new(vec![]),
             chans: (0..CHANS).map(|_| Arc::new(crate::rt::Chan::default())).collect(),
             legacy,
+            legacy_mask,
             in_update: AtomicBool::new(false),
             reentered: AtomicBool::new(false),
         });
@@ -119,9 +125,14 @@ pub fn follow_up(follow: Option<(u8, u8)>, ev: &Event, started_follow_ups: u16) 
     }
 }
 
+/// mixed core: does program `p` run through the legacy capability API? (shared with the reference)
+pub fn through_legacy_api(mask: u8, p: u16, c: &Cmd) -> bool {
+    p < 8 && mask & (1 << p) != 0 && crate::legacy::expressible(c)
+}
+
 /// what `update` does with an event, apart from building the command: log it, stamp the witness,
 /// detect re-entrancy, decide which program (if any) the event starts
-pub fn apply_event(u: &Arc<UniCtx>, model: &mut Model, ev: Event) -> Option<Cmd> {
+pub fn apply_event(u: &Arc<UniCtx>, model: &mut Model, ev: Event) -> Option<(u16, Cmd)> {
     if u.in_update.swap(true, Ordering::SeqCst) {
         u.reentered.store(true, Ordering::SeqCst);
     }
@@ -140,7 +151,7 @@ pub fn apply_event(u: &Arc<UniCtx>, model: &mut Model, ev: Event) -> Option<Cmd>
     let cmd = prog.and_then(|p| {
         let c = instantiate(&u.programs, p, model.instances);
         model.instances += 1;
-        c
+        c.map(|c| (p, c))
     });
     u.in_update.store(false, Ordering::SeqCst);
     cmd
@@ -172,11 +183,11 @@ impl crux_core::App for App {
         crate::conc::app_point("app.update"); // C08: the caller holds the model's write lock here
         match apply_event(&u, model, ev) {
             None => Command::done(),
-            Some(c) if u.legacy => {
+            Some((p, c)) if u.legacy || through_legacy_api(u.legacy_mask, p, &c) => {
                 crate::legacy::run_program(&caps.sim, &u, &c);
                 Command::done()
             }
-            Some(c) => crate::cruxrt::compile(&c, &u),
+            Some((_, c)) => crate::cruxrt::compile(&c, &u),
         }
     }
 
